@@ -6,7 +6,7 @@ import numpy as np
 from checks import dsm
 
 PROPERTY = "C09"
-FUNCTIONS = ["InflowDrivenDSM._compute_stock", "DynamicStockModel._compute_outflow", "StockDrivenDSM._compute_cohorts_and_inflow",
+FUNCTIONS = ["FixedLifetime._survival_by_year_id", "InflowDrivenDSM._compute_stock", "DynamicStockModel._compute_outflow", "StockDrivenDSM._compute_cohorts_and_inflow",
              "DynamicStockModel.get_stock_by_cohort", "DynamicStockModel.get_outflow_by_cohort", "LifetimeModel.compute_outflow_pdf"]
 ASSUMPTIONS = ["time items strictly increasing", "survival table in [0,1], non-increasing with age; diagonal >= 1/20 for the stock-driven class",
                "scipy.linalg.solve_triangular satisfies its documented contract (lapack solver)"]
@@ -29,6 +29,17 @@ def configs(tier, seed):
                         continue
                     ek = "x".join(f"{l}{k}" for l, k in extra.items()) or "-"
                     out.append(dict(h="cohorts", op=kind, key=f"cohorts/{kind}/grid={grid}/n={n}/extra={ek}", kind=kind, grid=grid, n=n, extra=extra))
+                    if n == 3:
+                        for ia in ("start", "end"):
+                            out.append(dict(h="cohorts", op=kind + ia, key=f"cohorts/{kind}/grid={grid}/n={n}/extra={ek}/inflow_at={ia}", kind=kind, grid=grid, n=n, extra=extra, inflow_at=ia))
+    # the shipped lifetime classes with parameters that vary over time (per cohort) and over labels
+    for kind in KINDS:
+        for lt in ("FixedLifetime", "NormalLifetime"):
+            if lt == "FixedLifetime" and kind != "idsm":
+                continue
+            for ps in ("t", "tr", "r"):
+                for grid in (["unit", "uneven"] if tier == "quick" else dsm.GRIDS):
+                    out.append(dict(h="realclass", op=kind + lt, key=f"realclass/{kind}/{lt}/prm={ps}/grid={grid}", kind=kind, lt=lt, ps=ps, grid=grid, n=3 if kind != "idsm" else 4, extra={"r": 2}))
     return out
 
 
@@ -41,8 +52,25 @@ def run(cfg, w):
     y, dt, b = dsm.make_grid(w, n, cfg["grid"])
     dims = dsm.make_dims(y, extra)
     shape = dims.shape
-    tab = dsm.sf_table(w, n, shape[1:], constrain=("range", "mono"), diag_min=(0.05 if kind.startswith("sdsm") else None))
-    lifetime = dsm.AnyLifetime(dims=dims, table=tab)
+    if cfg["h"] == "realclass":
+        import flodym.lifetime_models as lm
+        from flodym import FlodymArray
+        from checks.c08 import _axioms
+
+        ps = cfg["ps"]
+        kw = {}
+        for name in (["mean"] if cfg["lt"] == "FixedLifetime" else ["mean", "std"]):
+            A = w.arr("prm_" + name, tuple(n if l == "t" else 2 for l in ps), default=lambda idx, name=name: {"mean": 1.4, "std": 0.8}[name] * (1 + 0.9 * sum((i + 1) * (k + 1) for k, i in enumerate(idx))))
+            for x in A.flat:
+                w.assume(w.gt(x, 0))
+            kw[name] = FlodymArray(dims=dims.get_subset(tuple(ps)), values=A.copy())
+        lifetime = getattr(lm, cfg["lt"])(dims=dims, **kw)
+        tab = lifetime.sf
+        if w.sym:
+            _axioms(w, w.ctx)
+    else:
+        tab = dsm.sf_table(w, n, shape[1:], constrain=("range", "mono"), diag_min=(0.05 if kind.startswith("sdsm") else None))
+        lifetime = dsm.AnyLifetime(dims=dims, table=tab, inflow_at=cfg.get("inflow_at", "middle"))
     drive = dict(inflow=w.arr("in", shape)) if kind == "idsm" else dict(stock=w.arr("st", shape))
     w.set_scale(*drive.values())
     st = dsm.build_stock(kind, dims, lifetime=lifetime, **drive)
